@@ -134,6 +134,45 @@ def d_models_interleaved(t):
     _renumber(t)
 
 
+def d_models_zero_based(t):
+    """Two models numbered 0 and 1 (zero-based ensembles, e.g. from simulations): the first model of the file is model 0."""
+    if any(a["model"] != 1 for a in t):
+        return False
+    base = [dict(a) for a in t]
+    for a in t:
+        a["model"] = 0
+    for a in base:
+        b = dict(a)
+        b["model"] = 1
+        b["x"] = "%.3f" % (float(a["x"]) + 7.0)
+        t.append(b)
+    _renumber(t)
+
+
+def d_models_out_of_order(t):
+    """Two models written as model 2 first, then model 1: 'the first' model is the one written first."""
+    if any(a["model"] != 1 for a in t):
+        return False
+    base = [dict(a) for a in t]
+    for a in t:
+        a["model"] = 2
+    for a in base:
+        b = dict(a)
+        b["model"] = 1
+        b["x"] = "%.3f" % (float(a["x"]) + 7.0)
+        t.append(b)
+    _renumber(t)
+
+
+def d_boundary_twin(t):
+    """The first residue of chain B gets the name and the number of the last residue of chain A: consecutive records that differ in the chain only."""
+    ref = t[5]
+    for k in range(6, 9):
+        t[k]["resname"] = ref["resname"]
+        t[k]["resseq"] = ref["resseq"]
+        t[k]["icode"] = ref["icode"]
+
+
 def d_altloc(o1, o2):
     def f(t):
         a = t[1]
@@ -224,6 +263,7 @@ def deviations():
     # added after the second wave of seeded changes (C08-c, C08-d): appended so that earlier indices (replay files) stay valid
     d += [d_same_name, d_icode_run, d_model2_clash("0.30", "0.70"), d_model2_clash("0.70", "0.30")]
     d += [d_models_interleaved]
+    d += [d_models_zero_based, d_models_out_of_order, d_boundary_twin]
     return d
 
 
